@@ -66,7 +66,7 @@ func (h *transportHandler) HandleLinkEstablished(lnk link.Link) {
 
 			// close dupe
 			le.Debug("closing existing link identical to incoming link")
-			h.c.flushEstablishedLink(el, true)
+			h.c.flushEstablishedLink(el, true, lnk)
 			broadcast()
 		}
 
@@ -97,7 +97,7 @@ func (h *transportHandler) HandleLinkLost(lnk link.Link) {
 		luuid := lnk.GetUUID()
 		if el, elOk := h.c.links[luuid]; elOk && el.lnk == lnk {
 			delete(h.c.links, luuid)
-			h.c.flushEstablishedLink(el, false)
+			h.c.flushEstablishedLink(el, false, nil)
 			// wake the EstablishLink resolvers so that they drop the lost link.
 			broadcast()
 			return
@@ -108,7 +108,7 @@ func (h *transportHandler) HandleLinkLost(lnk link.Link) {
 		for k, l := range h.c.links {
 			if l.lnk == lnk {
 				delete(h.c.links, k)
-				h.c.flushEstablishedLink(l, false)
+				h.c.flushEstablishedLink(l, false, nil)
 				broadcast()
 				break
 			}
